@@ -17,13 +17,13 @@ Variable cap : Z.
 Variable ucfg : bool.
 Variable daf : bool.
 
-Notation step := (Shutdown.step cap ucfg daf).
-Notation apply := (Shutdown.apply cap ucfg daf).
-Notation run_from := (Shutdown.run_from cap ucfg daf).
-Notation run := (Shutdown.run cap ucfg daf).
-Notation prompt_from := (Shutdown.prompt_from cap ucfg daf).
-Notation prompt := (Shutdown.prompt cap ucfg daf).
-Notation step_thread := (Shutdown.step_thread cap daf).
+Notation step := (Shutdown.step cap ucfg daf true).
+Notation apply := (Shutdown.apply cap ucfg daf true).
+Notation run_from := (Shutdown.run_from cap ucfg daf true).
+Notation run := (Shutdown.run cap ucfg daf true).
+Notation prompt_from := (Shutdown.prompt_from cap ucfg daf true).
+Notation prompt := (Shutdown.prompt cap ucfg daf true).
+Notation step_thread := (Shutdown.step_thread cap daf true).
 Notation Inv2 := (Shutdown_Term_Proofs.Inv2 daf).
 
 Ltac splitifs E := repeat match type of E with context [if ?c then _ else _] => destruct c end.
@@ -214,7 +214,7 @@ Proof.
 Qed.
 
 Ltac stk_ob Et :=
-  unfold restart, request_stop, set_pufail, callback, set_ch_len, set_ustop, set_inbox, pc_of, stopped, stopping, thread in *;
+  unfold so_after_fail, restart, request_stop, set_pufail, callback, set_ch_len, set_ustop, set_inbox, pc_of, stopped, stopping, thread in *;
   repeat match goal with |- context [if ?c then _ else _] => destruct c end;
   cbn in *; rewrite ?Et; cbn; first [reflexivity|lia].
 
@@ -291,21 +291,21 @@ End Reach.
 (* the code as it is (the consumer keeps draining after an error): no hypothesis about D26 *)
 
 Theorem stop_progress_fixed : forall (cap : Z) (ucfg : bool) (acts : list act),
-  1 <= cap -> prompt cap ucfg true acts = true ->
-  let w := run cap ucfg true acts in
+  1 <= cap -> prompt cap ucfg true true acts = true ->
+  let w := run cap ucfg true true acts in
   stopping w = true -> stopped w = false ->
-  exists a, benign a = true /\ thread_act a = true /\ prompt_ok w a = true /\ step cap ucfg true w a <> None.
+  exists a, benign a = true /\ thread_act a = true /\ prompt_ok w a = true /\ step cap ucfg true true w a <> None.
 Proof.
   intros cap ucfg acts Hc Hp w Hst Hs.
   exact (progress_daf cap ucfg true w eq_refl (Inv_reachable cap ucfg true acts Hp) (Inv2_reachable cap ucfg true acts) Hc Hst Hs).
 Qed.
 
 Theorem stop_reaches_stopped_fixed : forall (cap : Z) (ucfg : bool) (acts : list act),
-  1 <= cap -> prompt cap ucfg true acts = true ->
-  let w := run cap ucfg true acts in
+  1 <= cap -> prompt cap ucfg true true acts = true ->
+  let w := run cap ucfg true true acts in
   stopcall w = 2 ->
-  exists acts', forallb thread_act acts' = true /\ prompt_from cap ucfg true w acts' = true /\
-                Z.of_nat (length acts') <= rank w /\ stopped (run_from cap ucfg true w acts') = true.
+  exists acts', forallb thread_act acts' = true /\ prompt_from cap ucfg true true w acts' = true /\
+                Z.of_nat (length acts') <= rank w /\ stopped (run_from cap ucfg true true w acts') = true.
 Proof.
   intros cap ucfg acts Hc Hp w Hcall. apply stop_reaches_stopped; auto.
 Qed.
@@ -328,10 +328,10 @@ Definition d26_acts : list act :=
   ++ [AStep PU KFail 0; AStopFlag; AStopReq; ARun true; ARun true;
       AStep RT KEnd 0; AStep PB KEnd 0; AStep CD KEnd 0].
 
-Notation d26_w := (run 100 false false d26_acts).
+Notation d26_w := (run 100 false false true d26_acts).
 
 Lemma d26_facts :
-  prompt 100 false false d26_acts = true /\ stopcall d26_w = 2 /\ stopped d26_w = false /\ d26_state 100 d26_w = true /\
+  prompt 100 false false true d26_acts = true /\ stopcall d26_w = 2 /\ stopped d26_w = false /\ d26_state 100 d26_w = true /\
   pc_of d26_w = RWaitIn /\ t_pu (w_thr d26_w) = TDone /\ t_mi (w_thr d26_w) = TLive (PSend CTx) 0 /\
   x_len (w_ch d26_w) = 100 /\ n_in (w_cnt d26_w) = 1 /\ t_cd (w_thr d26_w) = TDone /\ t_mu (w_thr d26_w) = TNone /\
   n_proc (w_cnt d26_w) = 1 /\ t_so (w_thr d26_w) = TLive PTop 0.
@@ -345,11 +345,11 @@ Qed.
 
 (* after the stop request nothing can move: no step of the run loop or of any goroutine is enabled *)
 Theorem d26_refuted :
-  exists acts, prompt 100 false false acts = true /\
-    let w := run 100 false false acts in
+  exists acts, prompt 100 false false true acts = true /\
+    let w := run 100 false false true acts in
     stopcall w = 2 /\ stopped w = false /\ d26_state 100 w = true /\
-    (forall a, thread_act a = true -> step 100 false false w a = None) /\
-    (forall acts', stopped (run_from 100 false false w acts') = false).
+    (forall a, thread_act a = true -> step 100 false false true w a = None) /\
+    (forall acts', stopped (run_from 100 false false true w acts') = false).
 Proof.
   exists d26_acts. destruct d26_facts as (F1 & F2 & F3 & F4 & _).
   split; [exact F1|]. cbv zeta. split; [exact F2|]. split; [exact F3|]. split; [exact F4|]. split.
@@ -358,6 +358,57 @@ Proof.
     + destruct t; vm_compute; reflexivity.
     + destruct t; vm_compute; reflexivity.
   - intros acts'. apply stuck_forever. exact d26_stuck.
+Qed.
+
+(* ---------------------------------------------------------------------------------------------- *)
+(* A sender that returns on the first failed write (sdrain = false; today's sendOutgoing - in node.go and
+   in untrusted_node.go - keeps emptying its queue instead).  Schedule: connect, every goroutine
+   registers, sendOutgoing takes the version message and is inside the socket write (the peer does not
+   read), the peer sends 101 pings: 100 pongs fill the outgoing queue, monitorIncoming waits with the
+   101st inside MessageChannel.Add holding the mutex; Stop; Run closes the connection, the write fails,
+   sendOutgoing returns; the other goroutines leave.  Then NO action at all is enabled: a deadlock. *)
+Definition sr_msg : list act :=
+  [d26_mi; AStep MI KEnd 1; AStep MI KOut 0; d26_mi; d26_mi; d26_mi; d26_mi; d26_mi].
+Definition sr_acts : list act :=
+  [ARun true; ARun true; AReg MI; AReg RT; AReg SO; AReg PB; AReg PU; AReg CD; AStep SO KEnd 0; d26_mi]
+  ++ repeat APeerMsg 101 ++ concat (repeat sr_msg 101)
+  ++ [AStopFlag; AStopReq; ARun true; ARun true; AStep SO KFail 0; AStep RT KEnd 0; AStep PB KEnd 0; AStep CD KEnd 0].
+Notation sr_w := (run 100 false true false sr_acts).
+
+Lemma sr_facts :
+  prompt 100 false true false sr_acts = true /\ stopcall sr_w = 2 /\ stopped sr_w = false /\
+  pc_of sr_w = RWaitIn /\ t_so (w_thr sr_w) = TDone /\ t_mi (w_thr sr_w) = TLive (PSend COut) 0 /\
+  o_len (w_ch sr_w) = 100 /\ o_open (w_ch sr_w) = true /\ n_in (w_cnt sr_w) = 1.
+Proof. vm_compute. repeat split; reflexivity. Qed.
+
+Lemma dead_forever cap ucfg daf sdrain w :
+  (forall a, Shutdown.step cap ucfg daf sdrain w a = None) ->
+  forall acts', Shutdown.run_from cap ucfg daf sdrain w acts' = w.
+Proof.
+  intros Hd. induction acts' as [|a acts' IH]; [reflexivity|].
+  cbn. unfold Shutdown.apply at 2. rewrite (Hd a). exact IH.
+Qed.
+
+Theorem sender_returns_refuted :
+  exists acts, prompt 100 false true false acts = true /\
+    let w := run 100 false true false acts in
+    stopcall w = 2 /\ stopped w = false /\
+    (forall a, step 100 false true false w a = None) /\
+    (forall acts', stopped (run_from 100 false true false w acts') = false).
+Proof.
+  exists sr_acts. destruct sr_facts as (F1 & F2 & F3 & _).
+  split; [exact F1|]. cbv zeta. split; [exact F2|]. split; [exact F3|].
+  assert (Hd : forall a, step 100 false true false sr_w a = None).
+  { intros a. destruct a.
+    - destruct ok; vm_compute; reflexivity.
+    - vm_compute; reflexivity.
+    - vm_compute; reflexivity.
+    - vm_compute; reflexivity.
+    - vm_compute; reflexivity.
+    - vm_compute; reflexivity.
+    - destruct t; vm_compute; reflexivity.
+    - destruct t; vm_compute; reflexivity. }
+  split; [exact Hd|]. intros acts'. rewrite (dead_forever _ _ _ _ _ Hd). exact F3.
 Qed.
 
 (* ---------------------------------------------------------------------------------------------- *)
@@ -373,12 +424,12 @@ Definition d27_acts : list act :=
    AReg PU; AStep PU KEnd 0; AStep PU KEnd 0].
 
 Theorem d27_refuted :
-  exists acts, prompt 100 false true acts = false /\
-    let w := run 100 false true acts in
+  exists acts, prompt 100 false true true acts = false /\
+    let w := run 100 false true true acts in
     stopped w = true /\ d_late (w_dat w) = true /\ d_disk (w_dat w) <> d_mem (w_dat w) /\
     (* and the schedule is fine up to the moment the counter is read *)
-    exists pre post, acts = pre ++ ARun true :: post /\ prompt 100 false true pre = true /\
-                     pc_of (run 100 false true pre) = RWaitProc /\ thread (run 100 false true pre) PU = TSpawned.
+    exists pre post, acts = pre ++ ARun true :: post /\ prompt 100 false true true pre = true /\
+                     pc_of (run 100 false true true pre) = RWaitProc /\ thread (run 100 false true true pre) PU = TSpawned.
 Proof.
   exists d27_acts. split; [vm_compute; reflexivity|]. cbv zeta.
   split; [vm_compute; reflexivity|]. split; [vm_compute; reflexivity|]. split; [vm_compute; discriminate|].
@@ -391,10 +442,10 @@ Qed.
 (* a restart (lost connection, time-out) goes through the same phases: when the run loop is back at
    its head, every goroutine of the old round has ended, everything was saved, the stop flags are reset *)
 Theorem restart_resumes : forall cap ucfg daf acts,
-  prompt cap ucfg daf acts = true ->
-  let w := run cap ucfg daf acts in
+  prompt cap ucfg daf true acts = true ->
+  let w := run cap ucfg daf true acts in
   pc_of w = RDecide -> needs w = true -> hard w = false ->
-  let w' := apply cap ucfg daf w (ARun true) in
+  let w' := apply cap ucfg daf true w (ARun true) in
   pc_of w' = RLoop /\ stopping w' = false /\ needs w' = false /\ stopped w' = false /\
   all_dead (w_thr w') /\ d_disk (w_dat w') = d_mem (w_dat w') /\ d_mem (w_dat w') = d_mem (w_dat w).
 Proof.
@@ -426,9 +477,9 @@ Theorem reconnect_resumes_sync :
 Proof. intros. eapply Sync_Proofs.c02_monitor_passes; eassumption. Qed.
 
 (* the scenario runner used by the correspondence check only takes steps of the transition system *)
-Lemma settle_reach : forall fuel listen a b c w, exists acts, settle fuel listen a b c w = run_from scap false true w acts.
+Lemma settle_reach : forall fuel listen a b c d w, exists acts, settle fuel listen a b c d w = run_from scap false true true w acts.
 Proof.
-  induction fuel as [|f IH]; intros listen a b c w; [exists []; reflexivity|].
-  cbn [settle]. destruct (pick listen a b c w) as [x|]; [|exists []; reflexivity].
-  destruct (IH listen a b c (sapply w x)) as (acts & E). exists (x :: acts). rewrite E. reflexivity.
+  induction fuel as [|f IH]; intros listen a b c d w; [exists []; reflexivity|].
+  cbn [settle]. destruct (pick listen a b c d w) as [x|]; [|exists []; reflexivity].
+  destruct (IH listen a b c d (sapply w x)) as (acts & E). exists (x :: acts). rewrite E. reflexivity.
 Qed.
